@@ -477,9 +477,40 @@ func smallBody(r *Rng) []byte { return r.Bytes(r.Pick(0, 1, 4, 5, 16, 33)) }
 
 func peBody(r *Rng) []byte { return append([]byte("MZ"), r.Bytes(r.Pick(0, 2, 6, 30))...) }
 
+// Erase polarity of the region being generated (set by GenRegionSpec, read by GenVolSpec and
+// GenFileSpec). Pol0 regions in 40 get erase polarity 0 (volume attribute bit 0x800 clear: free
+// space, alignment gaps and pad files are zeros, file states are not inverted). All volumes of a
+// region, nested ones included, share it - fiano refuses an image with two polarities - except in
+// the rare "mixed" regions, which must fail to parse.
+//
+// Pol0 is 0 (off) by default: fiano at the pinned commit cannot parse a volume of erase polarity 0
+// that has any free space (NewFile recognises free space only by the size field FF FF FF; erased
+// zeros read as a file of size 0, "File size too small"), and the model, written as the code is,
+// refuses them likewise. With Pol0 > 0 almost every such case ends in err-parse. The switch is
+// kept for the day the parser honours the polarity.
+var (
+	Pol0     = 0
+	curPol0  bool
+	curMixed bool
+)
+
+func polAttr() uint32 {
+	if curPol0 {
+		return 0
+	}
+	return 0x800
+}
+
+func validState() byte {
+	if curPol0 {
+		return 0x07
+	}
+	return 0xF8
+}
+
 // GenFileSpec makes a file over the small GUID / name pools.
 func GenFileSpec(r *Rng, depth, maxDepth int, aligned bool) *uefigen.File {
-	f := &uefigen.File{State: 0xF8}
+	f := &uefigen.File{State: validState()}
 	if r.Chance(3, 4) {
 		f.GUID = poolGUID(1 + r.Intn(5))
 	} else {
@@ -579,13 +610,20 @@ func genCompressed(r *Rng) *uefigen.Sec {
 }
 
 func GenVolSpec(r *Rng, depth, maxDepth int, aligned bool) *uefigen.Vol {
-	v := &uefigen.Vol{FSGUID: uefigen.FFS2, Attrs: 0x800 | uint32(r.Pick(0, 0x4FEFF, 0x3)), Revision: 2}
+	v := &uefigen.Vol{FSGUID: uefigen.FFS2, Attrs: polAttr() | uint32(r.Pick(0, 0x4FEFF, 0x3))&^0x800, Revision: 2}
 	if r.Chance(1, 3) {
 		v.FSGUID = uefigen.FFS3
 	}
 	v.BlockSize = uint32(r.Pick(8, 64, 64, 256))
 	if depth > 0 {
 		v.BlockSize = uint32(r.Pick(8, 16, 64))
+	}
+	if r.Chance(1, 5) {
+		// a block map with two or three entries (nested volumes included: when such a volume grows,
+		// only the first entry is resized and the map must still add up to the length)
+		for i, n := 0, r.Pick(1, 1, 2); i < n; i++ {
+			v.ExtraBlocks = append(v.ExtraBlocks, [2]uint32{uint32(r.Pick(1, 1, 2, 3)), uint32(r.Pick(8, 16, 64))})
+		}
 	}
 	if r.Chance(1, 3) {
 		v.ExtHeader = true
@@ -634,10 +672,20 @@ func genPad(r *Rng) []byte {
 
 func GenRegionSpec(r *Rng, maxDepth int, aligned bool) *uefigen.Region {
 	reg := &uefigen.Region{}
+	curPol0 = Pol0 > 0 && r.Chance(Pol0, 40)
+	curMixed = false
 	n := r.Pick(1, 1, 2, 2, 3)
+	mixAt := -1
+	if Pol0 > 0 && n > 1 && r.Chance(1, 40) {
+		mixAt = 1 + r.Intn(n-1) // this volume and the following ones have the other polarity
+	}
 	for i := 0; i < n; i++ {
 		if r.Chance(1, 3) {
 			reg.Elems = append(reg.Elems, uefigen.Elem{Pad: genPad(r)})
+		}
+		if i == mixAt {
+			curPol0 = !curPol0
+			curMixed = true
 		}
 		reg.Elems = append(reg.Elems, uefigen.Elem{Vol: GenVolSpec(r, 0, maxDepth, aligned)})
 	}
@@ -704,6 +752,45 @@ func present(reg *uefigen.Region) (files, vols []string) {
 	return
 }
 
+// decoyTexts: "NoSuchName" and the texts of GUIDs that the image holds in places that are not names
+// (file-system GUIDs of the volumes, GUIDs of GUID-defined sections), unless a file or a volume of
+// the image happens to carry that very text as its name.
+func decoyTexts(reg *uefigen.Region) []string {
+	out := []string{"NoSuchName"}
+	files, vols := present(reg)
+	named := map[string]bool{GuidText([16]byte{}): true} // FVName of a volume without extended header
+	for _, t := range append(files, vols...) {
+		named[strings.ToUpper(t)] = true
+	}
+	add := func(g [16]byte) {
+		if t := GuidText(g); !named[t] {
+			out = append(out, t)
+		}
+	}
+	var walk func(v *uefigen.Vol)
+	walk = func(v *uefigen.Vol) {
+		add(v.FSGUID)
+		for _, f := range v.Files {
+			owned(f.Secs, func(s *uefigen.Sec) {
+				if s.Type == 0x02 {
+					add(s.GUID)
+				}
+			})
+			for _, s := range f.Secs {
+				if s.Vol != nil {
+					walk(s.Vol)
+				}
+			}
+		}
+	}
+	for _, e := range reg.Elems {
+		if e.Vol != nil {
+			walk(e.Vol)
+		}
+	}
+	return out
+}
+
 // genTarget picks what an operation names: mostly something the image has (when [unique], a text
 // that selects exactly one thing, if there is one), else pool GUIDs and names that may be absent or
 // ambiguous; in arbitrary letter case.
@@ -728,7 +815,10 @@ func genTarget(r *Rng, reg *uefigen.Region, forInsert, unique bool) string {
 	case k == 8:
 		return randCase(r, namePool[r.Intn(len(namePool))])
 	case k == 9:
-		return "NoSuchName"
+		// texts that name nothing: an absent name, and GUID texts that do occur in the image but
+		// are not the name of a file or of a volume (the file-system GUID of the volume headers,
+		// the GUID of a GUID-defined section); selecting by them must fail
+		return randCase(r, decoyTexts(reg)[r.Intn(len(decoyTexts(reg)))])
 	case k == 10 && forInsert:
 		return randCase(r, GuidText(volNames[r.Intn(len(volNames))]))
 	}
@@ -797,6 +887,11 @@ func GenOp(r *Rng, reg *uefigen.Region, maxDepth int) EOp {
 		o := EOp{Kind: "ins", It: insKinds[r.Intn(len(insKinds))], Target: genTarget(r, reg, true, true), Spec: f, Data: EmitFile(f)}
 		if o.It == "dxe" {
 			o.Target = ""
+		} else if r.Chance(1, 8) {
+			// a GUID text the image holds in a place that is not a name (the insert family also
+			// looks at volumes: the file-system GUID of a volume header is not its name)
+			d := decoyTexts(reg)
+			o.Target = randCase(r, d[r.Intn(len(d))])
 		} else if Patterns && r.Chance(1, 5) {
 			// the insert family selects with FindFileFVPredicate: file GUIDs, UI names, volume names
 			o.Target, o.Match = genPattern(r, reg, true)
@@ -844,10 +939,15 @@ type ECase struct {
 	Comp    bool            // the image holds compressed sections: the model needs codec tables
 	Flat    bool            // image and operations are in the scope of C02_valid_after_edits_flat
 	PadPat  bool            // an operation's pattern selects pad files: no spec-side expectation
+	Mixed   bool            // volumes of both erase polarities: fiano must refuse to parse the image
 }
+
+// LastMixed: the region GenRegionSpec built last holds volumes of both erase polarities.
+func LastMixed() bool { return curMixed }
 
 func GenCase(r *Rng, maxDepth int, nops int) ECase {
 	reg := GenRegionSpec(r, maxDepth, true)
+	mixed := curMixed
 	img, _ := uefigen.EmitRegion(reg)
 	hasComp := RegionHasCompressed(reg)
 	flat := SpecFlat(reg) // of the image as generated: the edits below change the spec
@@ -862,7 +962,7 @@ func GenCase(r *Rng, maxDepth int, nops int) ECase {
 			errAt = i
 		}
 	}
-	c := ECase{Img: img, Ops: ops, Reg: reg, Comp: hasComp, Flat: flat && OpsFlat(ops)}
+	c := ECase{Img: img, Ops: ops, Reg: reg, Comp: hasComp, Flat: flat && OpsFlat(ops) && !mixed, Mixed: mixed}
 	for _, o := range ops {
 		c.PadPat = c.PadPat || MatchesPad(o)
 	}
@@ -929,6 +1029,8 @@ func Exhaustive(maxLen int, visit func(c ECase)) {
 			ins("replace", g2), ins("gend", GuidText(poolGUID(4))),
 			{Kind: "pe", Target: g1, Data: []byte("MZxyz12")}, {Kind: "pe", Target: g3, Data: []byte("MZ")},
 			{Kind: "rm", Target: "Shell|Fat", Re: true}, {Kind: "rm", Pad: true, Target: "Sh.*", Re: true},
+			// the file-system GUID of the volume headers is not the name of anything: must fail
+			ins("front", GuidText(uefigen.FFS2)),
 		}
 	}
 	n := len(alphabet())
@@ -986,6 +1088,7 @@ func asciiOnly(s string) bool {
 // ASCII (the model's case folding is ASCII).
 func GenCaseGrammar(r *Rng, nops int) ECase {
 	o := uefigen.Opts{MaxDepth: r.Pick(0, 0, 1), Strings: true, Alignments: r.Chance(2, 3), BigBodies: false}
+	curPol0, curMixed = false, false // the general grammar has erase polarity 0xFF only
 	reg := uefigen.GenRegion(r, o)
 	img, _ := uefigen.EmitRegion(reg)
 	flat := SpecFlat(reg)
